@@ -124,6 +124,8 @@ def build_rule(spec: RuleSpec, single_as_list: bool = False):
         r = r.have_name_matching(spec.subjects[0])
     elif spec.s_kind == "partial":
         r = r.have_name_containing(arg(spec.subjects))
+    elif spec.s_kind == "regexlist":
+        r = r.have_name_matching(list(spec.subjects))
     else:
         raise ValueError(spec.s_kind)
     r = getattr(r, spec.verb)()
@@ -141,6 +143,8 @@ def build_rule(spec: RuleSpec, single_as_list: bool = False):
         r = r.have_name_matching(spec.objects[0])
     elif spec.o_kind == "partial":
         r = r.have_name_containing(arg(spec.objects))
+    elif spec.o_kind == "regexlist":
+        r = r.have_name_matching(list(spec.objects))
     else:
         raise ValueError(spec.o_kind)
     return r
